@@ -27,6 +27,34 @@ NUMERIC = {
         dict(name='overlap_floor', file='polyply/src/nonbond_engine.py', func='NonBondEngine.compute_force_point',
              kind='compare_const', left='np.array(list(dist_mat.values()))', op='<', params=[], ret='S'),
     ],
+    'Gen_walk': [
+        dict(name='take_step', file='polyply/src/random_walk.py', func='_take_step', imports=['Gen_linalg'],
+             params=[('vectors', 'skip'), ('step_length', 'S'), ('coord', 'V'), ('box', 'V')],
+             skip=['index = random.randint'], subst={'vectors[index]': ('vector', 'V')}, ret_elt=0,
+             calls={'pbc_complete': ('pbc_complete', ['V', 'V'], 'V')}, ret='V'),
+        dict(name='in_sphere', file='polyply/src/random_walk.py', func='in_sphere',
+             params=[('point', 'V'), ('parameters', ('T', 'Mode', 'V', 'S'))], ret='B'),
+        dict(name='in_cylinder', file='polyply/src/random_walk.py', func='in_cylinder',
+             params=[('point', 'V'), ('parameters', ('T', 'Mode', 'V', 'S', 'S'))], ret='B'),
+        dict(name='in_rectangle', file='polyply/src/random_walk.py', func='in_rectangle',
+             params=[('point', 'V'), ('parameters', ('T', 'Mode', 'V', 'S', 'S', 'S'))], ret='B'),
+        dict(name='is_restricted_tail', file='polyply/src/random_walk.py', func='is_restricted',
+             params=[('point', 'V'), ('old_point', 'V'), ('node_dict', 'skip')],
+             after='normal, ref_angle = node_dict', tail_params=[('normal', 'V'), ('ref_angle', 'S')],
+             subst={'_vector_angle_degrees(normal, point - old_point)': ('angle_deg', 'S')}, ret='B'),
+        dict(name='lorentz_berthelot_rule', file='polyply/src/topology.py', func='lorentz_berthelot_rule',
+             params=[('sig_A', 'S'), ('sig_B', 'S'), ('eps_A', 'S'), ('eps_B', 'S')], ret=('T', 'S', 'S')),
+    ],
+    'Gen_restraints': [
+        dict(name='upper_bound', file='polyply/src/restraints.py', func='set_distance_restraint', kind='assign_rhs',
+             var='upper_bound', params=[('graph_distance', 'S'), ('avg_step_length', 'S'), ('distance', 'S'), ('tolerance', 'S')], ret='S'),
+        dict(name='avg_needed_step_length', file='polyply/src/restraints.py', func='set_distance_restraint', kind='assign_rhs',
+             var='avg_needed_step_length', params=[('distance', 'S')],
+             subst={'graph_distances_target[ref_node]': ('gd_target_ref', 'S')}, ret='S'),
+        dict(name='lower_bound', file='polyply/src/restraints.py', func='set_distance_restraint', kind='assign_rhs',
+             var='lower_bound', params=[('avg_needed_step_length', 'S'), ('tolerance', 'S')],
+             subst={'graph_distances_ref[node]': ('gd_ref_node', 'S')}, ret='S'),
+    ],
     'Gen_backmap': [
         dict(name='place_atom', file='polyply/src/backmap.py', func='Backmap._place_init_coords',
              kind='assign_rhs', var='new_coords',
@@ -35,6 +63,24 @@ NUMERIC = {
 }
 
 DATA = {
+    'Gen_walk_skel': [
+        dict(name='accept_conjuncts', kind='guard_conjuncts', file='polyply/src/random_walk.py',
+             func='RandomWalk.update_positions', attr='add_positions'),
+        dict(name='first_accept_conjuncts', kind='guard_conjuncts', file='polyply/src/random_walk.py',
+             func='RandomWalk._random_walk', attr='add_positions'),
+        dict(name='is_overlap_return', kind='return_expr', file='polyply/src/random_walk.py',
+             func='RandomWalk._is_overlap'),
+        dict(name='constrained_def', kind='assign_text', file='polyply/src/random_walk.py',
+             func='RandomWalk._random_walk', var='constrained'),
+        dict(name='step_length_def', kind='assign_text', file='polyply/src/random_walk.py',
+             func='RandomWalk.update_positions', var='step_length'),
+        dict(name='search_tree_dfs', kind='flag_branches', file='polyply/src/meta_molecule.py',
+             func='MetaMolecule.search_tree', test='self.dfs'),
+        dict(name='ee_arange', kind='assign_text', file='polyply/src/persistence.py',
+             func='generate_end_end_distances', var='ee_distances', first=True),
+        dict(name='grid_start', kind='assign_text', file='polyply/src/build_system.py',
+             func='BuildSystem._handle_random_walk', var='start'),
+    ],
     'Gen_build': [
         dict(name='cleanup_all', kind='cleanup_arg', file='polyply/src/build_system.py',
              func='BuildSystem._handle_random_walk'),
